@@ -62,33 +62,36 @@ theorem C01_refusal (s : St) (m : Msg) (dev : Option Nat)
     (h : m.pgn = 0 ∨ ((m.pgn >>> 8) % 256 < 240 ∧ m.pgn % 256 ≠ 0) ∨
          (effSrc s m dev > Gen.maxCanBusAddress ∧ m.pgn ≠ 60928) ∨ dev.getD 0 ≥ s.devs.length ∨ s.listenOnly = true) :
     sendMsg s m dev = (s, false) := by
+  have hg : gate s m dev = .refuse s := by
+    unfold gate
+    by_cases hidx : dev.getD 0 ≥ s.devs.length
+    · simp [hidx]
+    · simp only [hidx, ↓reduceIte]
+      cases hd : s.devs[dev.getD 0]? with
+      | none => rfl
+      | some d0 =>
+        simp only
+        rw [srcOf_eq s m dev d0 hd]
+        by_cases h3 : effSrc s m dev > Gen.maxCanBusAddress ∧ m.pgn ≠ 60928
+        · rw [if_pos h3]
+        · rw [if_neg h3]
+          by_cases hc : n2kToCanId m.prio m.pgn (effSrc s m dev) (if m.pgn &&& 0xff ≠ 0 then 0xff else m.dst) = 0
+          · rw [if_pos hc]
+          · rw [if_neg hc]
+            by_cases hl : s.listenOnly = true
+            · rw [if_pos hl]
+            · rw [if_neg hl]
+              by_cases hp0 : m.pgn = 0
+              · rw [if_pos hp0]
+              · exfalso
+                rcases h with h | ⟨h1, h2⟩ | h | h | h
+                · exact hp0 h
+                · exact hc (C01_id_invalid _ _ _ _ h1 h2)
+                · exact h3 h
+                · exact hidx h
+                · exact hl h
   unfold sendMsg
-  by_cases hidx : dev.getD 0 ≥ s.devs.length
-  · simp [hidx]
-  · simp only [hidx, ↓reduceIte]
-    cases hd : s.devs[dev.getD 0]? with
-    | none => rfl
-    | some d0 =>
-      simp only
-      rw [srcOf_eq s m dev d0 hd]
-      by_cases h3 : effSrc s m dev > Gen.maxCanBusAddress ∧ m.pgn ≠ 60928
-      · simp [h3]
-      · simp only [h3, ↓reduceIte]
-        by_cases hc : n2kToCanId m.prio m.pgn (effSrc s m dev) (if m.pgn &&& 0xff ≠ 0 then 0xff else m.dst) = 0
-        · rw [if_pos hc]
-        · simp only [hc, ↓reduceIte]
-          by_cases hl : s.listenOnly = true
-          · simp [hl]
-          · simp only [hl, Bool.false_eq_true, ↓reduceIte]
-            by_cases hp0 : m.pgn = 0
-            · simp [hp0]
-            · exfalso
-              rcases h with h | ⟨h1, h2⟩ | h | h | h
-              · exact hp0 h
-              · exact hc (C01_id_invalid _ _ _ _ h1 h2)
-              · exact h3 h
-              · exact hidx h
-              · exact hl h
+  rw [hg]
 
 /-! ## accepted messages -/
 
@@ -107,19 +110,8 @@ structure Accepted (s : St) (m : Msg) (dev : Option Nat) (d0 d1 : Dev) : Prop wh
 def afterGate (s : St) (dev : Option Nat) (d1 : Dev) : St := { s with devs := updDev s.devs (dev.getD 0) d1 }
 
 theorem sendMsg_accepted (s : St) (m : Msg) (dev : Option Nat) (d0 d1 : Dev) (a : Accepted s m dev d0 d1) :
-    sendMsg s m dev =
-      let s1 := afterGate s dev d1
-      let canId := n2kToCanId m.prio m.pgn (effSrc s m dev) (if m.pgn &&& 0xff ≠ 0 then 0xff else m.dst)
-      if m.len ≤ 8 ∧ ¬ (m.prio < 0x80 ∧ isFastPacketPGN s.lists m.pgn) then
-        ({ s1 with ring := (sendFrame s1.ring s1.drv ⟨canId, m.len, m.data.take m.len⟩).1,
-                   drv := (sendFrame s1.ring s1.drv ⟨canId, m.len, m.data.take m.len⟩).2.1 },
-         (sendFrame s1.ring s1.drv ⟨canId, m.len, m.data.take m.len⟩).2.2)
-      else if m.tp then (s1, false)
-      else
-        let g := getSequenceCounter s.lists d1 m.pgn
-        let s2 := { s1 with devs := updDev s1.devs (dev.getD 0) g.1 }
-        let r := sendFpLoop canId m (g.2 <<< 5) (fpFrameCount m.len) 0 s2.ring s2.drv
-        ({ s2 with ring := r.1, drv := r.2.1 }, r.2.2) := by
+    sendMsg s m dev = produce (afterGate s dev d1) (dev.getD 0) d1
+      (n2kToCanId m.prio m.pgn (effSrc s m dev) (if m.pgn &&& 0xff ≠ 0 then 0xff else m.dst)) m := by
   obtain ⟨hidx, hd, h3, hc, hl, hp0, hcl⟩ := a
   have hsrc := srcOf_eq s m dev d0 hd
   have hclaim : (isAddressClaimStarted s.flavor s.now d0).1 = d1 ∧
@@ -127,14 +119,12 @@ theorem sendMsg_accepted (s : St) (m : Msg) (dev : Option Nat) (d0 d1 : Dev) (a 
     rcases hcl with h | ⟨h1, h2⟩
     · rw [h]; simp
     · exact ⟨h2, fun hh => hh.2 h1⟩
+  have hg : gate s m dev = .pass (afterGate s dev d1) d1
+      (n2kToCanId m.prio m.pgn (effSrc s m dev) (if m.pgn &&& 0xff ≠ 0 then 0xff else m.dst)) := by
+    unfold gate
+    simp only [hidx, ↓reduceIte, hd, hsrc, h3, hc, hl, Bool.false_eq_true, hp0, afterGate, hclaim.1, hclaim.2]
   unfold sendMsg
-  simp only [hidx, ↓reduceIte, hd, hsrc, h3, hc, hl, Bool.false_eq_true, hp0, afterGate]
-  generalize isAddressClaimStarted s.flavor s.now d0 = ic at hclaim
-  obtain ⟨dd, cl⟩ := ic
-  simp only at hclaim
-  obtain ⟨e1, e2⟩ := hclaim
-  subst e1
-  simp only [e2, ↓reduceIte]
+  rw [hg]
 
 /-- **C01_single_frame.** An accepted message of at most 8 bytes whose PGN is not fast packet (or whose
 priority byte is ≥ 0x80) adds exactly one frame to the stream (driver ++ queue): identifier per J1939,
@@ -159,6 +149,7 @@ theorem C01_single_frame (s : St) (m : Msg) (dev : Option Nat) (d0 d1 : Dev) (a 
       exact C01_id_invalid _ _ _ _ this h0
   have hd' : (if m.pgn &&& 0xff ≠ 0 then 0xff else m.dst) < 256 := by split <;> omega
   rw [sendMsg_accepted s m dev d0 d1 a]
+  unfold produce
   simp only [hlen, hsf, not_false_eq_true, and_self, ↓reduceIte, afterGate]
   have hf : (⟨n2kToCanId m.prio m.pgn (effSrc s m dev) (if m.pgn &&& 0xff ≠ 0 then 0xff else m.dst), m.len,
       m.data.take m.len⟩ : Frame).WF :=
@@ -204,6 +195,7 @@ theorem C01_fast_packet_stream (s : St) (m : Msg) (dev : Option Nat) (d0 d1 : De
       res.1.drv.sent ++ res.1.ring.abs = s.drv.sent ++ s.ring.abs ++
         (List.range j).map fun t => (⟨id, 8, fpFrame m (sc <<< 5) t⟩ : Frame) := by
   rw [sendMsg_accepted s m dev d0 d1 a]
+  unfold produce
   simp only [hfp, ↓reduceIte, htp, Bool.false_eq_true, afterGate]
   obtain ⟨_, j, h1, h2, h3⟩ := sendFpLoop_prefix
     (n2kToCanId m.prio m.pgn (effSrc s m dev) (if m.pgn &&& 0xff ≠ 0 then 0xff else m.dst)) m
@@ -328,7 +320,7 @@ def demoDev : Dev :=
   { source := 34, name := 0xC0328200FA0003E8, claimTimer := Time.Sched.disabled .t64, endSource := 33,
     txList := [129029] }
 def demoSt : St :=
-  { flavor := .t64, now := 5000, listenOnly := false, canClaim := true, lists := {}, devs := [demoDev],
+  { flavor := .t64, now := 5000, listenOnly := false, claimMode := true, lists := {}, devs := [demoDev],
     ring := { n := 4, buf := fun _ => ⟨0, 0, []⟩, read := 0, write := 0 },
     drv := { script := [], dflt := true, sent := [] } }
 def demoMsg : Msg := { prio := 2, pgn := 129029, src := 0, dst := 255, len := 9, data := [1,2,3,4,5,6,7,8,9,0x55,0x55] }
